@@ -82,6 +82,10 @@ type WAL struct {
 	// waits on the close before acquiring the lock and continuing.
 	triggerRotate chan uint64
 	awaitRotate   chan struct{}
+
+	// stableMu is read-locked by StableStore operations while they use metaDB so
+	// that Close can wait for them before it closes the DB underneath them.
+	stableMu sync.RWMutex
 }
 
 type walOpt func(*WAL)
@@ -311,9 +315,30 @@ func (w *WAL) mutateStateLocked(tx stateTxn) error {
 // data within it will be performed to free old files that may have been
 // truncated concurrently.
 func (w *WAL) acquireState() (*state, func()) {
-	s := w.loadState()
-	verifPoint("acquireState.loaded")
-	return s, s.acquire()
+	for {
+		s := w.loadState()
+		verifPoint("acquireState.loaded")
+		release := s.acquire()
+		// The state may have been replaced (and its finalizer run, closing files)
+		// between the load and the acquire. Only a state that is still current
+		// after we hold a reference is safe to read from.
+		if w.loadState() == s {
+			return s, release
+		}
+		release()
+	}
+}
+
+// acquireOpenState is acquireState for API methods. They check the closed flag
+// on entry but Close may have swapped in the empty state since then, in which
+// case there is nothing to read and the caller must return ErrClosed.
+func (w *WAL) acquireOpenState() (*state, func(), error) {
+	s, release := w.acquireState()
+	if s.segments == nil {
+		release()
+		return nil, nil, ErrClosed
+	}
+	return s, release, nil
 }
 
 // newSegment creates a types.SegmentInfo with the passed ID and baseIndex, filling in
@@ -336,7 +361,10 @@ func (w *WAL) FirstIndex() (uint64, error) {
 		return 0, err
 	}
 	verifPoint("FirstIndex.checked")
-	s, release := w.acquireState()
+	s, release, err := w.acquireOpenState()
+	if err != nil {
+		return 0, err
+	}
 	defer release()
 	return s.firstIndex(), nil
 }
@@ -347,7 +375,10 @@ func (w *WAL) LastIndex() (uint64, error) {
 		return 0, err
 	}
 	verifPoint("LastIndex.checked")
-	s, release := w.acquireState()
+	s, release, err := w.acquireOpenState()
+	if err != nil {
+		return 0, err
+	}
 	defer release()
 	return s.lastIndex(), nil
 }
@@ -358,12 +389,20 @@ func (w *WAL) GetLog(index uint64, log *raft.Log) error {
 		return err
 	}
 	verifPoint("GetLog.checked")
-	s, release := w.acquireState()
+	s, release, err := w.acquireOpenState()
+	if err != nil {
+		return err
+	}
 	defer release()
 	w.metrics.IncrementCounter("log_entries_read", 1)
 
 	raw, err := s.getLog(index)
 	if err != nil {
+		// Close closes the segment files of every state, including older ones
+		// that readers may still hold; such a read fails because we are closed.
+		if err != ErrNotFound && w.checkClosed() != nil {
+			return ErrClosed
+		}
 		return err
 	}
 	w.metrics.IncrementCounter("log_entry_bytes_read", uint64(len(raw.Bs)))
@@ -395,7 +434,11 @@ func (w *WAL) StoreLogs(logs []*raft.Log) error {
 	// write lock.
 	w.awaitRotationLocked()
 
-	s, release := w.acquireState()
+	// Close may have completed while we waited for the lock.
+	s, release, err := w.acquireOpenState()
+	if err != nil {
+		return err
+	}
 	defer release()
 
 	// Verify monotonicity since we assume it
@@ -506,7 +549,11 @@ func (w *WAL) DeleteRange(min uint64, max uint64) error {
 	// write lock.
 	w.awaitRotationLocked()
 
-	s, release := w.acquireState()
+	// Close may have completed while we waited for the lock.
+	s, release, err := w.acquireOpenState()
+	if err != nil {
+		return err
+	}
 	defer release()
 
 	// Work out what type of truncation this is.
@@ -556,6 +603,12 @@ func (w *WAL) Set(key []byte, val []byte) error {
 		return err
 	}
 	verifPoint("Set.checked")
+	w.stableMu.RLock()
+	defer w.stableMu.RUnlock()
+	// Close may have run since the check above; it closes metaDB under stableMu.
+	if err := w.checkClosed(); err != nil {
+		return err
+	}
 	w.metrics.IncrementCounter("stable_sets", 1)
 	return w.metaDB.SetStable(key, val)
 }
@@ -566,6 +619,12 @@ func (w *WAL) Get(key []byte) ([]byte, error) {
 		return nil, err
 	}
 	verifPoint("Get.checked")
+	w.stableMu.RLock()
+	defer w.stableMu.RUnlock()
+	// Close may have run since the check above; it closes metaDB under stableMu.
+	if err := w.checkClosed(); err != nil {
+		return nil, err
+	}
 	w.metrics.IncrementCounter("stable_gets", 1)
 	return w.metaDB.GetStable(key)
 }
@@ -955,7 +1014,11 @@ func (w *WAL) Close() error {
 	defer w.writeMu.Unlock()
 
 	// It doesn't matter if there is a rotation scheduled because runRotate will
-	// exist when it sees we are closed anyway.
+	// exist when it sees we are closed anyway. A writer may be waiting for that
+	// rotation though; wake it up so that it can see we are closed.
+	if w.awaitRotate != nil {
+		close(w.awaitRotate)
+	}
 	w.awaitRotate = nil
 	// Awake and terminate the runRotate
 	close(w.triggerRotate)
@@ -986,6 +1049,9 @@ func (w *WAL) Close() error {
 		w.closeSegments(toClose)
 	})
 
+	// Wait for in-flight StableStore operations before closing the DB.
+	w.stableMu.Lock()
+	defer w.stableMu.Unlock()
 	return w.metaDB.Close()
 }
 
